@@ -40,7 +40,10 @@ Step(ev) ==
            \* M is shown to be a minimiser (to within the tolerance) by a verified dual-feasible point (weak duality)
            dualOK == ev.has_W /\ IsCholesky(ev.cholW, ev.W) /\ DualFeasible(ev.W, E, ev.alpha)
            gap == Sub(gM, Dual(ev.W, ev.logsW))
-       IN IF refuted
+       IN IF refuted /\ ev.solver_gave_up
+          \* the solver itself told the user (ConvergenceWarning) that it stopped at its iteration limit short of its tolerance
+          THEN R({}, {"C13.returned_matrix_is_finite_SPD", "X13.solver_reported_that_it_did_not_converge"})
+          ELSE IF refuted
           THEN R({"C13.objective_within_solver_tolerance_of_optimum"},
                  {"C13.returned_matrix_is_finite_SPD", "C13.objective_within_solver_tolerance_of_optimum"})
           ELSE IF ~dualOK THEN R({}, {"C13.returned_matrix_is_finite_SPD", "X13.no_dual_feasible_witness"})
